@@ -53,7 +53,7 @@ class Steps:
     def _cb(self, code, off):
         if "typelib" in code.co_filename:
             self.n += 1
-            if self.n > STEP_BUDGET:
+            if self.n > STEP_BUDGET and self.on:
                 raise StepBudgetExceeded()
         else:
             return sys.monitoring.DISABLE
@@ -78,6 +78,7 @@ def shape(nodes):
 
 def check_root(sh, label, T, steps, module_src=""):
     steps.n = 0
+    steps.on = True
     try:
         with quiet():
             nodes = graph.static_order(T)
@@ -91,6 +92,7 @@ def check_root(sh, label, T, steps, module_src=""):
     except Exception as e:  # noqa: BLE001
         sh.violation("raised", root=label, exc=type(e).__name__, detail=str(e)[:300], module_src=module_src[-2500:])
         return None
+    steps.on = False
     sh.count("sequences_checked")
     sh.see("max_steps", min(steps.n // 1000, 9999))
     sh.eval(shape(nodes) if len(nodes) > 1 else None)
